@@ -164,3 +164,85 @@ Proof.
   rewrite (walk_opt_chunk unesc_step e0 ec _ _ Hu), IH.
   rewrite <- Hc, firstn_skipn. reflexivity.
 Qed.
+
+(** * base64 *)
+Ltac Zify.zify_post_hook ::= Z.to_euclidean_division_equations.
+
+Lemma b64c_range x : x < 64 ->
+  (65 <= b64c x <= 90 \/ 97 <= b64c x <= 122 \/ 48 <= b64c x <= 57 \/ b64c x = 43 \/ b64c x = 47).
+Proof.
+  intros H. unfold b64c.
+  destruct (N.ltb_spec x 26); [lia|]. destruct (N.ltb_spec x 52); [lia|].
+  destruct (N.ltb_spec x 62); [lia|]. destruct (N.eqb_spec x 62); lia.
+Qed.
+Lemma b64v_b64c x : x < 64 -> b64v (b64c x) = Some x.
+Proof.
+  intros H. unfold b64c, b64v, in_range.
+  destruct (N.ltb_spec x 26).
+  { assert (N.leb 65 (65 + x) = true) as -> by (apply N.leb_le; lia).
+    assert (N.leb (65 + x) 90 = true) as -> by (apply N.leb_le; lia). cbn [andb orb]. f_equal. lia. }
+  destruct (N.ltb_spec x 52).
+  { assert (N.leb (71 + x) 90 = false) as -> by (apply N.leb_gt; lia). rewrite andb_false_r.
+    assert (N.leb 97 (71 + x) = true) as -> by (apply N.leb_le; lia).
+    assert (N.leb (71 + x) 122 = true) as -> by (apply N.leb_le; lia). cbn [andb orb]. f_equal. lia. }
+  destruct (N.ltb_spec x 62).
+  { assert (N.leb 65 (x - 4) = false) as -> by (apply N.leb_gt; lia). cbn [andb orb].
+    assert (N.leb 97 (x - 4) = false) as -> by (apply N.leb_gt; lia). cbn [andb orb].
+    assert (N.leb 48 (x - 4) = true) as -> by (apply N.leb_le; lia).
+    assert (N.leb (x - 4) 57 = true) as -> by (apply N.leb_le; lia). cbn [andb orb]. f_equal. lia. }
+  destruct (N.eqb_spec x 62); [subst; reflexivity|].
+  assert (x = 63) as -> by lia. reflexivity.
+Qed.
+Lemma b64c_not_pad x : x < 64 -> N.eqb (b64c x) 61 = false.
+Proof. intros H. apply N.eqb_neq. pose proof (b64c_range x H). lia. Qed.
+
+Lemma list_ind3 {A} (P : list A -> Prop) :
+  P [] -> (forall a, P [a]) -> (forall a b, P [a; b]) ->
+  (forall a b c r, P r -> P (a :: b :: c :: r)) -> forall l, P l.
+Proof.
+  intros H0 H1 H2 H3. fix IH 1. intros [|a [|b [|c r]]]; [exact H0 | exact (H1 a) | exact (H2 a b) | exact (H3 a b c r (IH r))].
+Qed.
+
+Lemma b64dec_q_enc : forall bs, bytes_ok bs -> b64dec_q (b64enc bs) = Some bs.
+Proof.
+  induction bs as [|a|a b|a b c r IH] using list_ind3; intros Hok.
+  - reflexivity.
+  - inversion Hok as [|? ? Ha _]; subst. cbn [b64enc b64dec_q].
+    rewrite !b64v_b64c by lia. cbn [N.eqb Pos.eqb]. f_equal. f_equal. lia.
+  - inversion Hok as [|? ? Ha Hok']; subst. inversion Hok' as [|? ? Hb _]; subst. cbn [b64enc b64dec_q].
+    rewrite !b64v_b64c by lia. cbn [N.eqb Pos.eqb]. rewrite b64c_not_pad by lia.
+    rewrite ?b64v_b64c by lia. f_equal. f_equal; [lia|]. f_equal. lia.
+  - inversion Hok as [|? ? Ha Hok1]; subst. inversion Hok1 as [|? ? Hb Hok2]; subst.
+    inversion Hok2 as [|? ? Hc Hok3]; subst.
+    cbn [b64enc app b64dec_q]. rewrite !b64v_b64c by lia. rewrite b64c_not_pad by lia.
+    rewrite ?b64v_b64c by lia. rewrite (IH Hok3). f_equal. cbn [app].
+    f_equal; [lia|]. f_equal; [lia|]. f_equal. lia.
+Qed.
+
+(** the characters base64 writes: never a newline, and safe inside a JSON string *)
+Definition b64_out (c : N) : Prop := 43 <= c <= 122 /\ c <> 92.
+Lemma b64enc_chars : forall bs, bytes_ok bs -> Forall b64_out (b64enc bs).
+Proof.
+  assert (Hc : forall x, x < 64 -> b64_out (b64c x)).
+  { intros x H. pose proof (b64c_range x H). unfold b64_out. lia. }
+  assert (Hp : b64_out 61) by (unfold b64_out; lia).
+  induction bs as [|a|a b|a b c r IH] using list_ind3; intros Hok; cbn [b64enc].
+  - constructor.
+  - inversion Hok; subst. do 2 (constructor; [apply Hc; lia|]). do 2 (constructor; [exact Hp|]). constructor.
+  - inversion Hok as [|? ? Ha Hok']; subst. inversion Hok'; subst. do 3 (constructor; [apply Hc; lia|]). constructor; [exact Hp|]. constructor.
+  - inversion Hok as [|? ? Ha Hok1]; subst. inversion Hok1 as [|? ? Hb Hok2]; subst.
+    inversion Hok2 as [|? ? Hc' Hok3]; subst. cbn [app].
+    do 4 (constructor; [apply Hc; lia|]). auto.
+Qed.
+Lemma filter_b64 l : Forall b64_out l -> filter not_newline l = l.
+Proof.
+  induction 1 as [|c l Hc _ IH]; simpl; auto.
+  assert (not_newline c = true) as ->.
+  { unfold not_newline, b64_out in *. destruct (N.eqb_spec c 10), (N.eqb_spec c 13); simpl; auto; lia. }
+  now rewrite IH.
+Qed.
+
+Theorem b64dec_b64enc bs : bytes_ok bs -> b64dec (b64enc bs) = Some bs.
+Proof.
+  intros H. unfold b64dec. rewrite filter_b64 by now apply b64enc_chars. now apply b64dec_q_enc.
+Qed.
